@@ -326,7 +326,7 @@ def check_strategy_dtors(ctx, fb, rs):
 
 
 def run(ctx):
-    fbs = ctx.facts(['K17', 'K20'], kinds=('probe', 'lib'))
+    fbs = ctx.facts(['K17', 'K20'], kinds=('probe', 'lib'), tests=r'/test/')
     ro = ctx.rule('R-DONEORDER', 'teardown order in Core::Done', minimum=200)
     rf = ctx.rule('R-FUNCTOR', 'the stored functor is destroyed exactly once per completion', minimum=200)
     rb = ctx.rule('R-REFBAL', 'predecessor / inner-core reference balance per Core instantiation', minimum=200)
@@ -336,8 +336,11 @@ def run(ctx):
     rc = ctx.rule('R-CANCEL', 'a completed Task is not cancelled; an abandoned one is', minimum=6)
     rp = ctx.rule('R-SHAREDWALK', 'shared core: exactly kSharedRefNoFuture references released by the promise side',
                   minimum=1)
+    ra = ctx.rule('R-AFTERRELEASE', 'no use of an object after the function gave its (last owned) reference away',
+                  minimum=40)
     for cfg, fb in sorted(fbs.items()):
         check_core(ctx, fb, ro, rf, rb)
+        lib_core.check_after_release(ctx, fb, ra)
         check_delete(ctx, fb, rd, ctx.root)
         check_unique_job(ctx, fb, ru)
         check_strategy_dtors(ctx, fb, rs)
